@@ -678,7 +678,7 @@ impl<F: Fam> Ctx<F> {
                 }
                 loop {
                     let st = self.st(s + 2);
-                    if st.len >= st.cap || guard > 40_000 {
+                    if st.len >= st.cap || guard > 40_000 || st.len >= lcap {
                         break;
                     }
                     let kk = self.fresh_key();
